@@ -8,7 +8,7 @@ Require Import ZArith Reals List.
 From Flocq Require Import Core BinarySingleNaN.
 From Dasp Require Import Base.Res Base.Float Ring.Fixed Ring.FixedSpec Dsp.Rms Dsp.Sqrt Dsp.RmsInst
   Dsp.RmsProofs Dsp.RmsIeee Dsp.RmsErr Dsp.RmsErrProofs Dsp.SqrtReal Dsp.SqrtProofs Dsp.RmsExamples
-  Dsp.RmsDrift Dsp.RmsDriftProofs Dsp.RmsOutProofs Dsp.RmsVerdictProofs.
+  Dsp.RmsDrift Dsp.RmsDriftProofs Dsp.RmsOutProofs Dsp.RmsVerdictProofs Dsp.RmsAccessProofs.
 From Flocq Require Import Calc.Operations.
 From DaspGen Require Import SqrtMagic.
 Import ListNotations.
@@ -267,3 +267,41 @@ Theorem c11_drift_step : forall (u eta S T q r : dy) (s qt rt a d : R),
   Rabs (clampR d - F2R (dsub (dadd S q) r)) <= F2R (e_next u eta S T q r))%R.
 Proof. exact drift_step. Qed.
 Print Assumptions c11_drift_step.
+
+(* ---- accessors and structural operations (round 3, coverage closing): the parts of the API that
+   the value theorems do not mention and that the correspondence observes; any arithmetic K ---- *)
+
+(* Rms::window_frames after any history of next / next_squared / current / reset is the length of
+   the ring buffer handed to Rms::new *)
+Theorem c11_window_frames : forall (K : num) (c : nat) (w : fixed (frame K)) (ops : list (op K)) st' outs,
+  run K (rms_new K c w) ops = Ok (st', outs) -> window_frames K st' = flen w.
+Proof. exact new_run_window_frames. Qed.
+Print Assumptions c11_window_frames.
+
+(* Rms::into_parts returns the stored window and running sum; derive(Clone) yields the same state,
+   for the detector and for the signal adaptor *)
+Theorem c11_into_parts_clone : forall (K : num) (st : rms K) (a : adaptor K),
+  into_parts K st = (window K st, square_sum K st) /\ rms_clone K st = st /\ adaptor_clone K a = a.
+Proof. exact into_parts_clone_all. Qed.
+Print Assumptions c11_into_parts_clone.
+
+(* dasp_signal::rms::Rms::into_parts after k outputs hands back the source advanced by exactly k
+   frames and the detector that was fed exactly those k frames *)
+Theorem c11_adaptor_into_parts : forall (K : num) (k : nat) (a a' : adaptor K) outs,
+  adaptor_run K a k = Ok (a', outs) ->
+  exists st', run K (det K a) (map (fun i => ONext (src K a (pulls K a + i)%nat)) (seq 0 k)) = Ok (st', outs)
+              /\ adaptor_into_parts K a' = (src K a, (pulls K a + k)%nat, st').
+Proof. exact adaptor_into_parts_after_run. Qed.
+Print Assumptions c11_adaptor_into_parts.
+
+(* ... and the parts used on their own continue the stream: detector.next(source.next()) = adaptor.next() *)
+Theorem c11_adaptor_parts_continue : forall (K : num) (a : adaptor K),
+  let '(s, p, d) := adaptor_into_parts K a in
+  adaptor_next K a =
+  match rms_next K d (s p) with
+  | Ok (d', out) => Ok ({| src := s; pulls := S p; det := d' |}, out)
+  | Panic q => Panic q
+  | UB => UB
+  end.
+Proof. exact adaptor_parts_continue. Qed.
+Print Assumptions c11_adaptor_parts_continue.
